@@ -5,13 +5,14 @@
 #include "gen/gens.hpp"
 #include "randomx.h"
 #include <thread>
+#include <array>
 
 using Bytes = std::vector<uint8_t>;
 
 struct CCase {
-	Bytes key; std::vector<Bytes> inputs; uint64_t partSeed;
-	std::string dump() const { vh::KVWriter w; w("key", vh::hex(key.data(), key.size()))("partSeed", partSeed)("n", (uint64_t)inputs.size()); for (size_t i = 0; i < inputs.size(); ++i) w("input" + std::to_string(i), vh::hex(inputs[i].data(), inputs[i].size())); return w.str(); }
-	static CCase parse(const vh::KV& kv) { CCase c; c.key = vh::unhex(vh::gets(kv, "key")); c.partSeed = vh::getu(kv, "partSeed"); size_t n = vh::getu(kv, "n"); for (size_t i = 0; i < n; ++i) c.inputs.push_back(vh::unhex(vh::gets(kv, "input" + std::to_string(i)))); return c; }
+	Bytes key; std::vector<Bytes> inputs; uint64_t partSeed; uint32_t sweep = 0;   // sweep: number of additional seed-derived inputs hashed by six cheap-to-compare classes only
+	std::string dump() const { vh::KVWriter w; w("key", vh::hex(key.data(), key.size()))("partSeed", partSeed)("sweep", (uint64_t)sweep)("n", (uint64_t)inputs.size()); for (size_t i = 0; i < inputs.size(); ++i) w("input" + std::to_string(i), vh::hex(inputs[i].data(), inputs[i].size())); return w.str(); }
+	static CCase parse(const vh::KV& kv) { CCase c; c.key = vh::unhex(vh::gets(kv, "key")); c.partSeed = vh::getu(kv, "partSeed"); c.sweep = (uint32_t)vh::getu(kv, "sweep", 0); size_t n = vh::getu(kv, "n"); for (size_t i = 0; i < n; ++i) c.inputs.push_back(vh::unhex(vh::gets(kv, "input" + std::to_string(i)))); return c; }
 };
 
 static std::string flagName(int f) {
@@ -93,6 +94,39 @@ static std::string body(const CCase& c) {
 			}
 		}
 	}
+	// ---- sweep: many more (input, version) pairs through six classes, 8 threads with their own VMs over the shared caches/datasets.
+	// A deviation that needs a particular program property (say 1 hash in 500) in one engine/mode is out of reach of the 16 tuples above.
+	if (err.empty() && c.sweep) {
+		std::vector<Bytes> sin(c.sweep);
+		{ vh::XorShift x(c.partSeed ^ 0x53574545); for (auto& b : sin) { b.resize(1 + x.next() % 96); x.fill(b.data(), b.size()); } }
+		struct SCfg { int flags; randomx_cache* cache; randomx_dataset* ds; const char* name; };
+		const SCfg scfg[6] = {
+			{0, cache[0][0], nullptr, "interp,softaes,light"},                                   // reference of the sweep
+			{RANDOMX_FLAG_JIT, cache[1][0], nullptr, "jit,softaes,light"},
+			{RANDOMX_FLAG_JIT | RANDOMX_FLAG_SECURE | RANDOMX_FLAG_HARD_AES, cache[1][0], nullptr, "jit+secure,hardaes,light"},
+			{RANDOMX_FLAG_FULL_MEM, nullptr, ds[0], "interp,softaes,fast,dataset:interpreted-init"},
+			{RANDOMX_FLAG_FULL_MEM | RANDOMX_FLAG_JIT | RANDOMX_FLAG_HARD_AES, nullptr, ds[1], "jit,hardaes,fast,dataset:compiled-init"},
+			{RANDOMX_FLAG_FULL_MEM | RANDOMX_FLAG_JIT | RANDOMX_FLAG_SECURE, nullptr, ds[0], "jit+secure,softaes,fast,dataset:interpreted-init"}};
+		const int T = 8; std::vector<std::string> terr(T); std::vector<std::thread> th;
+		for (int t = 0; t < T; ++t) th.emplace_back([&, t] {
+			for (int v2 = 0; v2 < 2 && terr[t].empty(); ++v2) {
+				randomx_vm* vm[6];
+				for (int k = 0; k < 6; ++k) { vm[k] = randomx_create_vm((randomx_flags)(scfg[k].flags | (v2 ? RANDOMX_FLAG_V2 : 0)), scfg[k].cache, scfg[k].ds); if (!vm[k]) { terr[t] = std::string("VM creation failed for ") + scfg[k].name; } }
+				for (size_t i = t; i < sin.size() && terr[t].empty(); i += T) {
+					std::array<uint8_t, 32> d[6];
+					for (int k = 0; k < 6; ++k) randomx_calculate_hash(vm[k], sin[i].data(), sin[i].size(), d[k].data());
+					for (int k = 1; k < 6; ++k) if (d[k] != d[0]) { terr[t] = std::string("configuration [") + scfg[k].name + (v2 ? ",v2" : ",v1") + "] gives " + vh::hex(d[k].data(), 32) + " but [interp,softaes,light] gives " + vh::hex(d[0].data(), 32) + " for sweep input " + vh::hex(sin[i].data(), sin[i].size()) + ", key " + vh::hex(c.key.data(), c.key.size()); break; }
+				}
+				for (int k = 0; k < 6; ++k) if (vm[k]) randomx_destroy_vm(vm[k]);
+			}
+		});
+		for (auto& t : th) t.join();
+		for (auto& e : terr) if (!e.empty() && err.empty()) err = e;
+		if (err.empty() && !vh::st().replaying) {
+			hashes += (uint64_t)sin.size() * 12; vh::label("sweep:(input,version)-pairs-through-6-classes", sin.size() * 2);
+			for (size_t i = 0; i < sin.size(); ++i) for (int v2 = 0; v2 < 2; ++v2) for (int k = 1; k < 6; ++k) vh::nontrivial(vh::fnv(scfg[k].name, strlen(scfg[k].name), vh::fnv(c.key.data(), c.key.size(), vh::fnv(sin[i].data(), sin[i].size(), v2))));
+		}
+	}
 	randomx_release_dataset(ds[0]); randomx_release_dataset(ds[1]);
 	for (int j = 0; j < 2; ++j) for (int a = 0; a < 3; ++a) if (cache[j][a]) randomx_release_cache(cache[j][a]);
 	if (!err.empty() || vh::st().replaying) return err;
@@ -105,7 +139,7 @@ static std::string body(const CCase& c) {
 int main(int argc, char** argv) {
 	using namespace rc;
 	vh::registerCheck<CCase>("configs", [] {
-		return gen::resize(100, gen::apply([](Bytes key, std::vector<Bytes> in, uint64_t ps) { return CCase{key, in, ps}; }, vg::genKey(), gen::container<std::vector<Bytes>>(8, vg::genInput()), gen::arbitrary<uint64_t>()));
+		return gen::resize(100, gen::apply([](Bytes key, std::vector<Bytes> in, uint64_t ps) { CCase c{key, in, ps}; c.sweep = 256; return c; }, vg::genKey(), gen::container<std::vector<Bytes>>(8, vg::genInput()), gen::arbitrary<uint64_t>()));
 	}, body, true, nullptr, 1);
 	return vh::harnessMain(argc, argv);
 }
